@@ -3443,8 +3443,9 @@ impl Conv<&air::Module> for ProtoModule {
         // wiring, or `Simulator::get_var` from a harness), and clock-typed lets
         // (derived clocks) are read only through `always_ff` sensitivity — both
         // are kept out of the candidate set.  Built here once so the key and the
-        // miss-path pipeline share it.
-        let dce_protect: HashSet<VarOffset> = if dead_var_dce::enabled() {
+        // miss-path pipeline share it.  Comb fusion takes it as its set of
+        // externally visible offsets, so it is built whether or not DCE runs.
+        let dce_protect: HashSet<VarOffset> = {
             use veryl_analyzer::ir::VarKind;
             let mut protect: HashSet<VarOffset> = HashSet::default();
             for (vid, var) in &src.variables {
@@ -3474,8 +3475,6 @@ impl Conv<&air::Module> for ProtoModule {
                 }
             }
             protect
-        } else {
-            HashSet::default()
         };
 
         // Comb relayout / fusion inputs: the offsets referenced outside any
